@@ -173,7 +173,12 @@ func evalLine(sub string, line string) string {
 		if k.more() {
 			prepend = k.str()
 		}
-		t := sp.NewTask(getWf(), p, p.Name(), pat, inIPs, pathFuncs, p.PortInfo, params, tags, prepend, nil, 1)
+		var custom func(*sp.Task)
+		if k.more() && k.next() == "G" {
+			// a Go-function process: the command is formed (and recorded) exactly as for a shell process
+			custom = func(*sp.Task) {}
+		}
+		t := sp.NewTask(getWf(), p, p.Name(), pat, inIPs, pathFuncs, p.PortInfo, params, tags, prepend, custom, 1)
 		return hx(t.Command)
 	case "pathfmt":
 		// cmdpattern outport pathpattern nIns (k v)* nPar (k v)* nTag (k v)*   -> SetOut path
